@@ -294,3 +294,14 @@ impl Client {
         Ok((scratch, is_new))
     }
 }
+
+/// Conformance-harness access to the crate-private vault read.
+#[cfg(maidsafe_safe_network_verif)]
+impl Client {
+    pub async fn verif_get_vault_from_network(
+        &self,
+        secret_key: &VaultSecretKey,
+    ) -> Result<Scratchpad, VaultError> {
+        self.get_vault_from_network(secret_key).await
+    }
+}
